@@ -5,7 +5,7 @@ pid=$1; patch=$(readlink -f "$2"); tier=${3:-quick}
 d=$(mktemp -d /root/scratch/st.XXXXXX)
 cp -r /repo/src /repo/cmake "$d"/ 2>/dev/null
 ( cd "$d" && patch -p1 -s --no-backup-if-mismatch < "$patch" ) || { echo "PATCH FAILED"; rm -rf "$d"; exit 9; }
-CMINX_SRC="$d/src" CMINX_CMAKE="$d/cmake" /verif/check "$pid" --tier "$tier" 2>&1 | sed "s#$d#<scratch>#g" | tail -${LINES_OUT:-6}
+VERIF_OUT="$d/out" CMINX_SRC="$d/src" CMINX_CMAKE="$d/cmake" /verif/check "$pid" --tier "$tier" 2>&1 | sed "s#$d#<scratch>#g" | tail -${LINES_OUT:-6}
 rc=${PIPESTATUS[0]}
 rm -rf "$d"
 echo "exit=$rc"
